@@ -272,6 +272,9 @@ def c18(tier, replay_file=None):
                     else:
                         writes.append({"raw": [rng.choice([0, 1, 1, 1, 2, 3, 4, 17, 20]), rng.randint(0, 800), rng.choice([-1, 0, 1, 2, 3, 65536])]})
                 cases.append({"id": n0 + i + 1, "writes": writes})
+            # very large batches (a writer that splits its output into several writes must not lose anything)
+            for n in ([170, 339, 340, 341, 512, 1000, 2000] if tier == "quick" else [169, 170, 171, 255, 256, 339, 340, 341, 509, 510, 511, 682, 1024, 1365, 2000, 2400]):
+                cases.append({"id": len(cases) + 1, "writes": [{"batch": [{"t": "PR"[j % 2], "k": names[(j * 7 + n) % len(names)]} for j in range(n)]}]})
             write_ndjson(cpath, cases)
         rpath = os.path.join(wd, "results.ndjson")
         t0 = time.time()
